@@ -142,11 +142,11 @@ def open_union_module(rng, tier, name="MBU", chunk=12):
         return {"k": "choice", "ms": [("%sm%d" % (tn.lower(), j), t, False) for j, t in enumerate(ms)]}
     OF = lambda el, kind="seqof", parts=(): {"k": kind, "parts": list(parts), "el": el, "con": None}
     # pivots: a small one, one across 2^31 (long / unsigned long change), and - thorough - more 2^k edges, negative side
-    pivots = [10, 2**31 - 5] if tier == "quick" else [10, 2**31 - 5, -2**31 - 5, 2**32 - 5, 2**15 - 5, -3, 2**62]
+    pivots = [10, 2**31 - 5] if tier == "quick" else [10, 2**31 - 5, -2**31 - 5, 2**32 - 5, 2**15 - 5]
     icons = []
     for pi, p in enumerate(pivots):
         pu = pair_unions(p)
-        if tier == "quick" and pi > 0:          # the 2^k pivot: open-ended x anything, the region the misses were in
+        if pi > 0:                              # the 2^k pivots: open-ended x anything, the region the misses were in
             pu = [c for c in pu if any(x is None for q in c[1] for x in q)]
         icons += pu + triple_unions(p)
     icons = _dedupe(icons)
